@@ -1,6 +1,7 @@
 //! One module per property.
 use crate::verif::report::Report;
 
+pub(crate) mod c01;
 pub(crate) mod c07;
 pub(crate) mod c10;
 pub(crate) mod c13;
@@ -8,6 +9,7 @@ pub(crate) mod c14;
 pub(crate) mod c15;
 pub(crate) mod panics;
 pub(crate) mod shard;
+pub(crate) mod sweep;
 
 pub(crate) struct Opts {
     pub tier: String,
@@ -24,6 +26,7 @@ impl Opts {
 pub(crate) fn run(id: &str, opts: &Opts) -> Option<i32> {
     let mut report = Report::new(id, &opts.tier, opts.seed);
     match id {
+        "C01" => c01::run(opts, &mut report),
         "C07" => c07::run(opts, &mut report),
         "C10" => c10::run(opts, &mut report),
         "C13" => c13::run(opts, &mut report),
